@@ -42,20 +42,86 @@ theorem varAtLevel_declared (m : Mgr) (hV : VarsBij m.tbl) (i : Int) (h0 : 0 ≤
   obtain ⟨s, hs⟩ := hV.onto k (by have : m.nvars = m.tbl.nvars := rfl; omega)
   exact ⟨s, varAtLevel_ok m k s (hV.v2l _ _ hs)⟩
 
+/-! ### a renaming all of whose keys and values are levels -/
+
+/-- some key or value of the resolved renaming is not an `int` (an undeclared name) -/
+def renameNonLevel (rn : List (Key × Key)) : Bool :=
+  rn.any fun (k, v) => match k, v with
+    | .lvl _, .lvl _ => false
+    | _, _ => true
+
+theorem intPairs_map_lvl (l : List (Int × Int)) :
+    intPairs (l.map fun p => (Key.lvl p.1, Key.lvl p.2)) = l := by
+  induction l with
+  | nil => rfl
+  | cons p l ih =>
+    unfold intPairs at ih ⊢
+    rw [List.map_cons, List.filterMap_cons]
+    simp only [ih]
+
+theorem badKeys_map_lvl (l : List (Int × Int)) :
+    badKeys (l.map fun p => (Key.lvl p.1, Key.lvl p.2)) = [] := by
+  induction l with
+  | nil => rfl
+  | cons p l ih =>
+    unfold badKeys at ih ⊢
+    rw [List.map_cons, List.filterMap_cons]
+    simp only [ih]
+
+theorem renameValues_map_lvl (l : List (Int × Int)) :
+    renameValues (l.map fun p => (Key.lvl p.1, Key.lvl p.2)) = l.map (·.2) := by
+  induction l with
+  | nil => rfl
+  | cons p l ih =>
+    unfold renameValues at ih ⊢
+    rw [List.map_cons, List.filterMap_cons]
+    simp only [ih, List.map_cons]
+
+/-- a renaming without names is the list of its level pairs -/
+theorem eq_map_of_nonLevel : ∀ rn : List (Key × Key), renameNonLevel rn = false →
+    rn = (intPairs rn).map fun p => (Key.lvl p.1, Key.lvl p.2) := by
+  intro rn
+  induction rn with
+  | nil => intro _; rfl
+  | cons x rest ih =>
+    intro h
+    obtain ⟨k, v⟩ := x
+    unfold renameNonLevel at h
+    rw [List.any_cons, Bool.or_eq_false_iff] at h
+    have hr := ih h.2
+    cases k with
+    | name s => simp at h
+    | lvl a =>
+      cases v with
+      | name s => simp at h
+      | lvl b =>
+        have : intPairs ((Key.lvl a, Key.lvl b) :: rest) = (a, b) :: intPairs rest := by
+          unfold intPairs
+          rw [List.filterMap_cons]
+        rw [this, List.map_cons, ← hr]
+
 /-- `_all_adjacent` (whose only effect is a warning that looks up two variable names) on pairs of
 declared levels -/
-theorem adjacentWarn_ok (m : Mgr) (hV : VarsBij m.tbl) (rn : List (Int × Int))
-    (h : ∀ p, p ∈ rn → 0 ≤ p.1 ∧ p.1 < (m.nvars : Int) ∧ 0 ≤ p.2 ∧ p.2 < (m.nvars : Int)) :
-    adjacentWarn rn m = (.ok (), m) := by
-  unfold adjacentWarn
-  cases hf : rn.find? (fun (k, v) => (k - v).natAbs ≠ 1) with
-  | none => rfl
-  | some p =>
+theorem adjacentWarn_ok (m : Mgr) (hV : VarsBij m.tbl) : ∀ (l : List (Int × Int)),
+    (∀ p, p ∈ l → 0 ≤ p.1 ∧ p.1 < (m.nvars : Int) ∧ 0 ≤ p.2 ∧ p.2 < (m.nvars : Int)) →
+    adjacentWarn (l.map fun p => (Key.lvl p.1, Key.lvl p.2)) m = (.ok (), m) := by
+  intro l
+  induction l with
+  | nil => intro _; rfl
+  | cons p l ih =>
+    intro h
     obtain ⟨k, x⟩ := p
-    obtain ⟨h1, h2, h3, h4⟩ := h _ (List.mem_of_find?_eq_some hf)
-    obtain ⟨s1, e1⟩ := varAtLevel_declared m hV k h1 h2
-    obtain ⟨s2, e2⟩ := varAtLevel_declared m hV x h3 h4
-    simp only [e1, e2]
+    rw [List.map_cons]
+    unfold adjacentWarn
+    simp only
+    by_cases hadj : (k - x).natAbs = 1
+    · simp only [hadj, if_true]
+      exact ih (fun p hp => h p (List.mem_cons_of_mem _ hp))
+    · simp only [hadj, if_false]
+      obtain ⟨h1, h2, h3, h4⟩ := h _ List.mem_cons_self
+      obtain ⟨s1, e1⟩ := varAtLevel_declared m hV k h1 h2
+      obtain ⟨s2, e2⟩ := varAtLevel_declared m hV x h3 h4
+      simp only [e1, e2]
 
 theorem assertValidRename_ok (m : Mgr) (hV : VarsBij m.tbl) (rn : List (Key × Key))
     (hne : rn ≠ [] → 0 < m.nvars) (hov : renameOverlap rn = false) :
@@ -71,32 +137,33 @@ theorem assertValidRename_ok (m : Mgr) (hV : VarsBij m.tbl) (rn : List (Key × K
 /-! ### `image` -/
 
 /-- the check "unpriming maps to qvars or outside the support of the conjunction" passes -/
-theorem imageBadTargets_nil (rn : List (Int × Int)) (q s1 s2 : List Nat)
-    (h : ∀ p, p ∈ rn → ∀ l : Nat, p.2 = (l : Int) → l ∈ q ∨ (l ∉ s1 ∧ l ∉ s2)) :
-    imageBadTargets rn q s1 s2 = [] := by
+theorem imageBadTargets_nil (vals : List Int) (q s1 s2 : List Nat)
+    (h : ∀ x, x ∈ vals → ∀ l : Nat, x = (l : Int) → l ∈ q ∨ (l ∉ s1 ∧ l ∉ s2)) :
+    imageBadTargets vals q s1 s2 = [] := by
   unfold imageBadTargets
   rw [List.filter_eq_nil_iff]
   intro l hl hp
-  simp only [Bool.and_eq_true, Bool.not_eq_true', List.any_eq_true, decide_eq_true_eq] at hp
-  obtain ⟨hq, p, hp1, hp2⟩ := hp
-  have hq' : l ∉ q := by simpa using hq
-  rcases h p hp1 l hp2 with h1 | ⟨h1, h2⟩
-  · exact hq' h1
+  simp only [Bool.and_eq_true, Bool.not_eq_true', List.contains_eq_mem, decide_eq_true_eq,
+    decide_eq_false_iff_not] at hp
+  obtain ⟨hq, hx⟩ := hp
+  rcases h _ hx l rfl with h1 | ⟨h1, h2⟩
+  · exact hq h1
   · rcases List.mem_append.mp hl with h3 | h3
     · exact h1 h3
     · exact h2 h3
 
 /-- the check fails: some rename target is in the support and not quantified -/
-theorem imageBadTargets_ne_nil (rn : List (Int × Int)) (q s1 s2 : List Nat)
-    (p : Int × Int) (hp : p ∈ rn) (l : Nat) (hl : p.2 = (l : Int)) (hq : l ∉ q)
-    (hs : l ∈ s1 ∨ l ∈ s2) : (imageBadTargets rn q s1 s2).isEmpty = false := by
-  have : l ∈ imageBadTargets rn q s1 s2 := by
+theorem imageBadTargets_ne_nil (vals : List Int) (q s1 s2 : List Nat)
+    (l : Nat) (hl : (l : Int) ∈ vals) (hq : l ∉ q)
+    (hs : l ∈ s1 ∨ l ∈ s2) : (imageBadTargets vals q s1 s2).isEmpty = false := by
+  have : l ∈ imageBadTargets vals q s1 s2 := by
     unfold imageBadTargets
     rw [List.mem_filter]
     refine ⟨List.mem_append.mpr hs, ?_⟩
-    simp only [Bool.and_eq_true, Bool.not_eq_true', List.any_eq_true, decide_eq_true_eq]
-    exact ⟨by simpa using hq, p, hp, hl⟩
-  cases h : imageBadTargets rn q s1 s2 with
+    simp only [Bool.and_eq_true, Bool.not_eq_true', List.contains_eq_mem, decide_eq_true_eq,
+      decide_eq_false_iff_not]
+    exact ⟨hq, hl⟩
+  cases h : imageBadTargets vals q s1 s2 with
   | nil => rw [h] at this; cases this
   | cons _ _ => rfl
 
@@ -120,12 +187,14 @@ theorem image_spec (m : Mgr) (hI : Inv m) (hoff : m.lastLen = none) (hV : VarsBi
       ∀ a, den m'.tbl r a = true ↔
         qsem fa q (fun b => den m.tbl trans b && den m.tbl source b)
           (fun z => a (renOf (intPairs (resolveRename m.tbl rn)) z)) := by
-  generalize hpairs : intPairs (resolveRename m.tbl rn) = pairs at hlv htg ⊢
+  have hrn := eq_map_of_nonLevel _ hnl
+  generalize hpairs : intPairs (resolveRename m.tbl rn) = pairs at hlv htg hrn ⊢
   obtain ⟨s1, hs1, _, hd1⟩ := supportLevels_spec' hI.wf trans hu
   obtain ⟨s2, hs2, _, hd2⟩ := supportLevels_spec' hI.wf source hv
-  have hbad : imageBadTargets pairs q s1 s2 = [] := by
+  have hbad : imageBadTargets (pairs.map (·.2)) q s1 s2 = [] := by
     apply imageBadTargets_nil
-    intro p hp l hl
+    intro x hx l hl
+    obtain ⟨p, hp, rfl⟩ := List.mem_map.mp hx
     rcases htg p hp l hl with h | ⟨h1, h2⟩
     · exact Or.inl h
     · exact Or.inr ⟨fun h => h1 ((hd1 l).mp h), fun h => h2 ((hd2 l).mp h)⟩
@@ -136,8 +205,11 @@ theorem image_spec (m : Mgr) (hI : Inv m) (hoff : m.lastLen = none) (hV : VarsBi
     (IMemo.empty _ _ _ _ _) (by omega)
   refine ⟨r, m', ?_, h1, h2, h5, h3, h6⟩
   unfold image
-  simp only [hq, hov, hnl, Bool.false_eq_true, if_false, hpairs,
-    adjacentWarn_ok m hV pairs hlv, hs1, hs2, hbad, List.isEmpty_nil, Bool.not_true, he]
+  simp only [hq, hov, Bool.false_eq_true, if_false]
+  rw [hrn]
+  simp only [adjacentWarn_ok m hV pairs hlv, hs1, hs2, renameValues_map_lvl, hbad,
+    List.isEmpty_nil, Bool.not_true, Bool.false_eq_true, if_false, intPairs_map_lvl,
+    badKeys_map_lvl, he]
 
 /-- `image` refuses (AssertionError, manager untouched) when a key of the renaming is also a
 value -/
@@ -162,14 +234,18 @@ theorem image_refuses_target (m : Mgr) (hI : Inv m) (hV : VarsBij m.tbl)
     (hl : p.2 = (l : Int)) (hlq : l ∉ q)
     (hdep : dependsOn m.tbl trans l ∨ dependsOn m.tbl source l) :
     image trans source rn qvars fa m = (.error .assertion, m) := by
-  generalize hpairs : intPairs (resolveRename m.tbl rn) = pairs at hlv hp
+  have hrn := eq_map_of_nonLevel _ hnl
+  generalize hpairs : intPairs (resolveRename m.tbl rn) = pairs at hlv hp hrn
   obtain ⟨s1, hs1, _, hd1⟩ := supportLevels_spec' hI.wf trans hu
   obtain ⟨s2, hs2, _, hd2⟩ := supportLevels_spec' hI.wf source hv
-  have hbad := imageBadTargets_ne_nil pairs q s1 s2 p hp l hl hlq
+  have hbad := imageBadTargets_ne_nil (pairs.map (·.2)) q s1 s2 l
+    (List.mem_map.mpr ⟨p, hp, hl⟩) hlq
     (hdep.elim (fun h => Or.inl ((hd1 l).mpr h)) (fun h => Or.inr ((hd2 l).mpr h)))
   unfold image
-  simp only [hq, hov, hnl, Bool.false_eq_true, if_false, hpairs,
-    adjacentWarn_ok m hV pairs hlv, hs1, hs2, hbad, Bool.not_false, if_true]
+  simp only [hq, hov, Bool.false_eq_true, if_false]
+  rw [hrn]
+  simp only [adjacentWarn_ok m hV pairs hlv, hs1, hs2, renameValues_map_lvl, hbad,
+    Bool.not_false, if_true]
 
 /-! ### `preimage` -/
 
@@ -183,6 +259,7 @@ theorem preimage_spec_partial (m : Mgr) (hI : Inv m) (hoff : m.lastLen = none)
     (hq : mapToLevelE m.tbl qvars = .ok q)
     (hne : resolveRename m.tbl rn ≠ [] → 0 < m.nvars)
     (hov : renameOverlap (resolveRename m.tbl rn) = false)
+    (hnb : badKeys (resolveRename m.tbl rn) = [])
     (hlv : ∀ p, p ∈ intPairs (resolveRename m.tbl rn) →
       0 ≤ p.1 ∧ p.1 < (m.nvars : Int) ∧ 0 ≤ p.2 ∧ p.2 < (m.nvars : Int))
     (hadj : ∀ p, p ∈ intPairs (resolveRename m.tbl rn) → (p.1 - p.2).natAbs = 1)
@@ -216,7 +293,7 @@ theorem preimage_spec_partial (m : Mgr) (hI : Inv m) (hoff : m.lastLen = none)
     (IMemo.empty _ _ _ _ _) (by omega)
   refine ⟨r, m', ?_, h1, h2, h5, h3, h6⟩
   unfold preimage
-  simp only [hq, assertValidRename_ok m hV _ hne hov, hpairs, he]
+  simp only [hq, assertValidRename_ok m hV _ hne hov, hpairs, hnb, he]
 
 /-! ### the renaming dictionary: keys and values given as names or as levels -/
 
@@ -282,15 +359,6 @@ theorem renameDictOf_nodup (l : List (Key × Key)) (h : (l.map (·.1)).Nodup) : 
     have := lookup_of_mem_nodup l.reverse hr k v (List.mem_reverse.mpr hp)
     simp [this]
   rw [List.map_congr_left this, List.map_id]
-
-theorem intPairs_map_lvl (l : List (Int × Int)) :
-    intPairs (l.map fun p => (Key.lvl p.1, Key.lvl p.2)) = l := by
-  induction l with
-  | nil => rfl
-  | cons p l ih =>
-    unfold intPairs at ih ⊢
-    rw [List.map_cons, List.filterMap_cons]
-    simp only [ih]
 
 /-- `rename` given by LEVELS with pairwise distinct keys: the level pairs are the items -/
 theorem intPairs_resolveRename_levels (t : Tbl) (l : List (Int × Int))
@@ -515,6 +583,7 @@ theorem preimage_spec_partial_names (m : Mgr) (hI : Inv m) (hoff : m.lastLen = n
       obtain ⟨p', hp', rfl⟩ := hmem x' hx'
       simp only at he
       exact hov p p' hp hp' (hinjv _ _ (hd p hp).2 (hd p' hp').1 (by omega)))
+    (by rw [hres']; exact badKeys_map_lvl lp)
     (by
       rw [hres', hip']
       intro x hx
